@@ -73,6 +73,19 @@ func genExplore(rnd *rand.Rand, mode string) exploreCfg {
 			runs[i], runs[j] = runs[j], runs[i]
 		}
 	}
+	if mode == "c12" && len(runs) >= 2 && rnd.Intn(3) == 0 {
+		// one Append whose batch has a hole inside: two runs that are not adjacent, given to the Store in one call (a
+		// reader of the missing height keeps waiting, readers of the heights around it are woken)
+		i := rnd.Intn(len(runs) - 1)
+		a, b := runs[i], runs[i+1]
+		if a[len(a)-1] > b[0] {
+			a, b = b, a
+		}
+		if a[len(a)-1]+1 < b[0] {
+			merged := append(append([]int{}, a...), b...)
+			runs = append(append(runs[:i:i], merged), runs[i+2:]...)
+		}
+	}
 	c.script = runs
 	if mode == "c06" {
 		c.syncs = 1 + rnd.Intn(2)
